@@ -199,6 +199,11 @@ func (c *FnCtx) execRegion(fr *Frame, blocks map[*ssa.BasicBlock]bool, start *ss
 		S, r := c.merge(in)
 		S = S.clone()
 		bc := &blockCtx{fr: fr, st: S, reach: r}
+		if c.blockCanaries && c.dry == 0 && fr == c.top && len(b.Preds) > 0 {
+			// cover check: the block must be reachable under the contracts in force
+			o := c.oblige("canary", fmt.Sprintf("block%d", b.Index), r, "false", c.eng.posOf(firstPos(b)), "vacuity canary: basic block reachable", nil)
+			o.Canary = true
+		}
 		if li := rr.headerOf[b]; li != nil && li != dryLoop {
 			c.enterLoop(bc, li, rr)
 		}
